@@ -761,7 +761,11 @@ class ExprMixin:
         return self.call_expr(e, st)
 
     def ev_Await(self, e, st):
-        return self.ev(e.value, st)
+        self._awaiting = getattr(self, "_awaiting", 0) + 1
+        try:
+            return self.ev(e.value, st)
+        finally:
+            self._awaiting -= 1
 
     def ev_Starred(self, e, st):
         raise Unsupported("starred expression")
